@@ -10,6 +10,7 @@
 //! Case (`"kind":"join"`): function-level stream for shared::join_algorithm::perform_hash_join_for_rules:
 //!   {"dict":[..], "premise":atom, "facts":[[s,p,o]..], "rows":[[[key,id]..]..]} with key = [0,x] variable,
 //!   [1,c] "__const_subj_<c>", [2,c] "__const_obj_<c>"; output rows in the same encoding.
+//!   optional "varnames": {"<n>": "name"} renames variable n for the real code only (the Spec is invariant under renaming).
 //! Only public API of /repo is used (no hook needed).
 use datalog::reasoning::Reasoner;
 use serde_json::{json, Value};
@@ -21,10 +22,28 @@ use shared::terms::{Term, TriplePattern};
 use shared::triple::Triple;
 use std::collections::BTreeMap;
 
+thread_local! {
+    /// optional per-case renaming of variable numbers to arbitrary variable names ("varnames": {"3": "__const_subj_0"})
+    static VARNAMES: std::cell::RefCell<std::collections::HashMap<u64, String>> = std::cell::RefCell::new(std::collections::HashMap::new());
+}
+fn var_name(n: u64) -> String {
+    VARNAMES.with(|m| m.borrow().get(&n).cloned()).unwrap_or_else(|| format!("X{}", n))
+}
+fn set_varnames(case: &Value) {
+    VARNAMES.with(|m| {
+        let mut m = m.borrow_mut();
+        m.clear();
+        if let Some(o) = case.get("varnames").and_then(|o| o.as_object()) {
+            for (k, v) in o {
+                m.insert(k.parse::<u64>().unwrap(), v.as_str().unwrap().to_string());
+            }
+        }
+    });
+}
 fn term(v: &Value) -> Term {
     let a = v.as_array().unwrap();
     match a[0].as_str().unwrap() {
-        "v" => Term::Variable(format!("X{}", a[1].as_u64().unwrap())),
+        "v" => Term::Variable(var_name(a[1].as_u64().unwrap())),
         "c" => Term::Constant(a[1].as_u64().unwrap() as u32),
         other => panic!("bad term tag {}", other),
     }
@@ -37,10 +56,10 @@ fn atoms(v: &Value) -> Vec<TriplePattern> {
     v.as_array().map(|l| l.iter().map(atom).collect()).unwrap_or_default()
 }
 fn filter(v: &Value) -> FilterCondition {
-    let variable = format!("X{}", v["x"].as_u64().unwrap());
+    let variable = var_name(v["x"].as_u64().unwrap());
     let operator = v["op"].as_str().unwrap().to_string();
     let value = if let Some(m) = v.get("var").and_then(|m| m.as_u64()) {
-        format!("X{}", m)
+        var_name(m)
     } else {
         format!("{}", v["num"].as_i64().unwrap())
     };
@@ -104,6 +123,7 @@ fn program_case(case: &Value) -> Value {
         let c = case.clone();
         let s2 = strat.clone();
         let res = vharness::catch(move || {
+            set_varnames(&c);
             let mut r = match build(&c) {
                 Ok(r) => r,
                 Err(e) => return json!({"rejected": e}),
